@@ -404,13 +404,13 @@ def gen_ops(rs, cfg, sh, n_ops, kinds, sizes=(1, 2, 3, 5, 8), train_rows=(1, 9),
             sh.arms.append(a)
             ops.append({"op": "add_arm", "arm": a})
         elif k == "remove_arm":
-            if has_probs(cfg) or len(sh.arms) <= 2:
+            if has_probs(cfg) or len(sh.arms) <= cfg.get("min_arms", 2):
                 continue
             a = sh.arms.pop(int(rs.integers(len(sh.arms))))
             sh.removed.append(a)
             ops.append({"op": "remove_arm", "arm": a})
         elif k == "warm_start":
-            if not sh.fitted:
+            if not sh.fitted or len(sh.arms) < 2:
                 continue
             ops.append(gen_warm(rs, sh.arms))
         elif k in ("predict", "predict_expectations"):
